@@ -281,7 +281,9 @@ def run_harness(h, keep=False, logdir=None):
         elif p["verdict"] == "FAILED":
             real = [f for f in p["failed"] if "unwinding assertion" not in f]
             framework = [f for f in real if f.startswith(("verif_oracle:", "bigint model:", "harness:"))]
-            if not real:
+            if not real and not p["unwind_fail"]:
+                res["reason"] = "solver failure (out of memory or CBMC error), no property decided"
+            elif not real:
                 res["reason"] = "unwinding bound too small (unwinding assertion failed)"
             elif framework:
                 # a capacity / structural assertion of the framework itself, not a property of the code
